@@ -45,7 +45,25 @@ def c10_eligible(valid):
 
 
 def c10_units(valid):
-    return [0, 1]  # fault at the handshake stage / at the data stage of an attempt
+    """0: fault at the handshake stage of an attempt; 1: at the data stage, nothing of the reply arrives; 2 (replies of two
+    or more data packets): at the data stage the reply STOPS HALF WAY — a silent attempt still receives some of the data
+    packets (see _got) and then nothing, a malformed datagram arrives after such a selection (Spec/Gs3Faults.lean:
+    Attempt.got; Run/Gs3Faults.lean: gs3Got)"""
+    c = valid.case()
+    n = len(c.script[0]) - 1 if c.script and c.script[0] != "X" else 0
+    # (replies of 2-4 data packets, at most C10_BASE_CAP bases: see props/families/valve.py)
+    return [0, 1, 2] if 2 <= n <= 4 else [0, 1]
+
+
+C10_BASE_CAP = {2: 10}
+
+
+def _got(unit, i, packets):
+    """the data packets the attempt at position i of the vector still receives: all but the last / only the first / all
+    but the first in reverse order of arrival"""
+    if unit < 2:
+        return []
+    return [packets[:-1], packets[:1], packets[1:][::-1]][i % 3]
 
 
 def c10_build(valid, unit, v, r, new_id):
@@ -54,7 +72,7 @@ def c10_build(valid, unit, v, r, new_id):
     ds = c.script[0] if c.script else []
     hs, packets = ds[0], ds[1:]
     newds, faults = [], []
-    for e in v:
+    for i, e in enumerate(v):
         if e == "V":
             newds += [hs] + packets
             faults += [False, False]
@@ -69,13 +87,13 @@ def c10_build(valid, unit, v, r, new_id):
                 faults.append(False)
         else:
             if e == "S":
-                newds += [hs, None]
+                newds += [hs] + _got(unit, i, packets) + [None]
                 faults += [False, False]
             elif e == "F":
                 newds += [hs]
                 faults += [False, True]
             else:
-                newds += [hs, malformed.CURRENT]
+                newds += [hs] + _got(unit, i, packets) + [malformed.CURRENT]
                 faults += [False, False]
     c.script = [newds]
     c.args[FAMILY["retries"]] = str(r)
